@@ -292,17 +292,21 @@ func specR32Code(t OperandType) bool {
 
 //@ func (OperandType).IsR16Type
 //@ props C01 C03
+//@ option inline
 //@ ensures[class] result0 == specR16Code(ot)
 
 //@ func (OperandType).IsR32Type
 //@ props C01 C03
+//@ option inline
 //@ ensures[class] result0 == specR32Code(ot)
 
 //@ func isR16Type
 //@ props C01 C03
+//@ option inline
 //@ ensures[class] result0 == specR16Code(opType)
 
 //@ func isR32Type
 //@ props C01 C03
+//@ option inline
 //@ ensures[class] result0 == specR32Code(opType)
 
